@@ -2,7 +2,7 @@
    in pyatv/protocols/raop/audio_source.py (BufferedIOBaseWrapper, StreamReaderWrapper,
    StreamableIOBaseWrapper over BufferedIOBaseWrapper, StreamableSourceWrapper over
    StreamReaderWrapper, PatchedIceCastClient reduced to its buffer logic), as the code
-   stands after commits b9f861e and ff5b434.
+   stands after commits b9f861e, ff5b434 and 205aad4.
 
    BYTE STRINGS are run-length encoded: a chunk (o, l) is the l bytes o, o+1, ..., o+l-1
    ("the byte IS its name"), a byte string is a list of chunks.  Any byte string can be
@@ -16,7 +16,7 @@
    truncated subtractions; Proofs.v shows they never truncate on reachable states
    (C17_model_no_truncation), so the N model and the int code agree.  Arguments that are
    negative in Python are outside the model except -1 for read sizes (None). *)
-From Coq Require Import List Bool NArith.
+From Coq Require Import List Bool NArith ZArith.
 From PV Require Import Common.Cases.
 Import ListNotations.
 Local Open Scope N_scope.
@@ -111,6 +111,10 @@ Definition buf_seek (p : N) (b : sbuf) : bool * sbuf :=
   else if b_head b <=? p then (false, b)
   else if N.min (b_head b) (dlen (b_buf b)) <=? p then (false, b)
   else (true, set_pos b p).
+
+(* seek with an arbitrary integer argument: `if position < 0: return False` (205aad4), then as above *)
+Definition buf_seek_z (p : Z) (b : sbuf) : bool * sbuf :=
+  if (p <? 0)%Z then (false, b) else buf_seek (Z.to_N p) b.
 
 (* fits(n) *)
 Definition buf_fits (n : N) (b : sbuf) : bool := dlen (b_buf b) + n <=? b_size b.
@@ -207,6 +211,8 @@ Inductive op :=
 | OGet (n : N)                           (* KBuf: buffer.get(n) *)
 | OFits (n : N)                          (* KBuf: buffer.fits(n) *)
 | OSeek (p : N) (start : bool)           (* seek(p, START/SEEK_SET) or, start=false, seek(p, CURRENT/SEEK_CUR) *)
+| OSeekX (p : Z) (wh : N)                (* seek(p, whence) for any integer p; whence 0 START/SEEK_SET, 1 CURRENT/SEEK_CUR,
+                                            2 SEEK_END (io-style wrappers only: miniaudio has no END) *)
 | OProt (v : bool)                       (* buffer.protected_headroom = v *)
 | ORead (n : option N) (cap : option N). (* wrapper.read(n); None is -1; cap: see src_read *)
 
@@ -248,6 +254,26 @@ Definition step (k : kind) (o : op) (w : wst) : res * wst :=
       | KSsw => (* if origin == SEEK_SET: source.seek(pos, START); return buffer.position *)
                 let w' := if st then snd (srw_seek p true w) else w in
                 (RNum (b_pos (w_buf w')), w')
+      end
+  | OSeekX p wh =>
+      match k with
+      | KBuf => if wh =? 0 then let '(r, b') := buf_seek_z p (w_buf w) in (RBool r, with_buf w b')
+                else (RBadOp, w)
+      | KBio | KSsw =>
+          (* if origin == SEEK_SET: (buffer|source).seek(pos); return buffer.position *)
+          let w' := if wh =? 0 then with_buf w (snd (buf_seek_z p (w_buf w))) else w in
+          (RNum (b_pos (w_buf w')), w')
+      | KSrw =>
+          (* if origin in (START, 0): return buffer.seek(offset); return False *)
+          if wh =? 0 then let '(r, b') := buf_seek_z p (w_buf w) in (RBool r, with_buf w b')
+          else (RBool false, w)
+      | KSio =>
+          (* whence = 1 if CURRENT else 0; expected = offset + (tell() if whence == 1 else 0);
+             return reader.seek(offset, whence) == expected *)
+          let cur := wh =? 1 in
+          let expected := if cur then (p + Z.of_N (b_pos (w_buf w)))%Z else p in
+          let w' := if cur then w else with_buf w (snd (buf_seek_z p (w_buf w))) in
+          (RBool (Z.of_N (b_pos (w_buf w')) =? expected)%Z, w')
       end
   | ORead n cap =>
       match k with
